@@ -292,10 +292,13 @@ def gen_native(rng, nrev, allow_dotgit=True):
                     if all(x not in anc[q] and q not in anc[x] for q in parents):
                         parents.append(x)
             tree = [list(e) for e in revs[left]["tree"]]
-            for p in parents[1:]:
-                tree = _take_other(rng, tree, revs[p]["tree"])
-            for _ in range(rng.choice([0, 1, 1, 2, 3])):
-                tree = _gen_edit(rng, tree, fidn, allow_dotgit)
+            if len(parents) > 1 and rng.random() < 0.2:
+                pass        # a merge that keeps the left parent's tree: nothing dirty, the parent's root tree is reused
+            else:
+                for p in parents[1:]:
+                    tree = _take_other(rng, tree, revs[p]["tree"])
+                for _ in range(rng.choice([0, 1, 1, 2, 3])):
+                    tree = _gen_edit(rng, tree, fidn, allow_dotgit)
         revs.append({"parents": parents, "tree": sorted(tree, key=lambda e: e[0].split("/"))})
         anc[i] = {i}.union(*[anc[q] for q in parents])
     # make the last revision a descendant of every head so that dpush carries the whole history
@@ -422,7 +425,14 @@ def corpus():
         {"parents": [2], "tree": [f("aa", b"a", b"A\n", True), d("dd", b"d"), d("dd/ee", b"e")]},
         {"parents": [3], "tree": [f("aa", b"a", b"A\n", True), d(".git", b"g"), f(".git/aa", b"ga"), d("dd", b"d")]},
     ]})
-    # git-origin: unusual modes, symlink, nested, merge
+    # a merge that changes nothing relative to its left parent (root tree must come from parent 0, not parent 1)
+    out.append({"kind": "native", "revs": [
+        {"parents": [], "tree": [f("aa", b"a"), f("bb", b"b", b"B\n")]},
+        {"parents": [0], "tree": [f("aa", b"a", b"A1\n"), f("bb", b"b", b"B\n")]},
+        {"parents": [0], "tree": [f("aa", b"a"), f("bb", b"b", b"B2\n")]},
+        {"parents": [1, 2], "tree": [f("aa", b"a", b"A1\n"), f("bb", b"b", b"B\n")]},
+    ]})
+    # git-origin: symlink, nested, non-NFC name, merge
     g0 = [[M_REG, b"aa", b"1\n"], [M_REG, b"counter", b"0\n"], [M_DIR, b"dd", [[M_REG, b"bb", b"B\n"], [M_LNK, b"ll", b"../aa"]]]]
     g1 = [[M_EXE, b"aa", b"1\n"], [M_REG, b"counter", b"1\n"], [M_DIR, b"dd", [[M_REG, b"bb", b"B\n"], [M_LNK, b"ll", b"../aa"]]]]
     g2 = [[M_REG, b"aa", b"2\n"], [M_REG, b"counter", b"2\n"], [M_DIR, b"dd", [[M_REG, b"bb", b"B\n"]]], ["é".encode(), None, None]]
@@ -442,7 +452,7 @@ def corpus():
 
 
 def cases(rng, tier):
-    nn, ng = (26, 14) if tier == "quick" else (420, 220)
+    nn, ng = (26, 14) if tier == "quick" else (300, 150)
     for i in range(nn):
         yield gen_native(rng, rng.randint(2, 4) if i % 3 else rng.randint(4, 6))
     for i in range(ng):
